@@ -59,6 +59,9 @@ func WriteWire(w *spec.WCase, root string, env Env) (*Layout, error) {
 
 func pkgFuncsSource(c *spec.Case) string {
 	var sb strings.Builder
+	for _, n := range c.PkgNames {
+		fmt.Fprintf(&sb, "var %s = 0\n\nfunc init() { _ = %s }\n\n", n, n)
+	}
 	for _, n := range c.PkgFuncs {
 		fmt.Fprintf(&sb, "func %s() int { return 0 }\n\n", n)
 	}
